@@ -16,12 +16,24 @@ theories/Runner.vos theories/Runner.vok theories/Runner.required_vos: theories/R
 theories/RunnerEq.vo theories/RunnerEq.glob theories/RunnerEq.v.beautified theories/RunnerEq.required_vo: theories/RunnerEq.v theories/Base.vo theories/Status.vo theories/Rollup.vo theories/Runner.vo
 theories/RunnerEq.vio: theories/RunnerEq.v theories/Base.vio theories/Status.vio theories/Rollup.vio theories/Runner.vio
 theories/RunnerEq.vos theories/RunnerEq.vok theories/RunnerEq.required_vos: theories/RunnerEq.v theories/Base.vos theories/Status.vos theories/Rollup.vos theories/Runner.vos
+theories/RunnerQuiet.vo theories/RunnerQuiet.glob theories/RunnerQuiet.v.beautified theories/RunnerQuiet.required_vo: theories/RunnerQuiet.v theories/Base.vo theories/Status.vo theories/Rollup.vo theories/Runner.vo theories/RunnerSteps.vo theories/RunnerVerdict.vo gen/StatusTable.vo
+theories/RunnerQuiet.vio: theories/RunnerQuiet.v theories/Base.vio theories/Status.vio theories/Rollup.vio theories/Runner.vio theories/RunnerSteps.vio theories/RunnerVerdict.vio gen/StatusTable.vio
+theories/RunnerQuiet.vos theories/RunnerQuiet.vok theories/RunnerQuiet.required_vos: theories/RunnerQuiet.v theories/Base.vos theories/Status.vos theories/Rollup.vos theories/Runner.vos theories/RunnerSteps.vos theories/RunnerVerdict.vos gen/StatusTable.vos
+theories/RunnerSteps.vo theories/RunnerSteps.glob theories/RunnerSteps.v.beautified theories/RunnerSteps.required_vo: theories/RunnerSteps.v theories/Base.vo theories/Status.vo theories/Rollup.vo theories/Runner.vo gen/StatusTable.vo
+theories/RunnerSteps.vio: theories/RunnerSteps.v theories/Base.vio theories/Status.vio theories/Rollup.vio theories/Runner.vio gen/StatusTable.vio
+theories/RunnerSteps.vos theories/RunnerSteps.vok theories/RunnerSteps.required_vos: theories/RunnerSteps.v theories/Base.vos theories/Status.vos theories/Rollup.vos theories/Runner.vos gen/StatusTable.vos
+theories/RunnerVerdict.vo theories/RunnerVerdict.glob theories/RunnerVerdict.v.beautified theories/RunnerVerdict.required_vo: theories/RunnerVerdict.v theories/Base.vo theories/Status.vo theories/Rollup.vo theories/Runner.vo gen/StatusTable.vo
+theories/RunnerVerdict.vio: theories/RunnerVerdict.v theories/Base.vio theories/Status.vio theories/Rollup.vio theories/Runner.vio gen/StatusTable.vio
+theories/RunnerVerdict.vos theories/RunnerVerdict.vok theories/RunnerVerdict.required_vos: theories/RunnerVerdict.v theories/Base.vos theories/Status.vos theories/Rollup.vos theories/Runner.vos gen/StatusTable.vos
 theories/Status.vo theories/Status.glob theories/Status.v.beautified theories/Status.required_vo: theories/Status.v theories/Base.vo
 theories/Status.vio: theories/Status.v theories/Base.vio
 theories/Status.vos theories/Status.vok theories/Status.required_vos: theories/Status.v theories/Base.vos
-props/C01.vo props/C01.glob props/C01.v.beautified props/C01.required_vo: props/C01.v theories/Base.vo theories/Status.vo theories/Rollup.vo theories/Runner.vo
-props/C01.vio: props/C01.v theories/Base.vio theories/Status.vio theories/Rollup.vio theories/Runner.vio
-props/C01.vos props/C01.vok props/C01.required_vos: props/C01.v theories/Base.vos theories/Status.vos theories/Rollup.vos theories/Runner.vos
+props/C01.vo props/C01.glob props/C01.v.beautified props/C01.required_vo: props/C01.v theories/Base.vo theories/Status.vo theories/Rollup.vo theories/Runner.vo theories/RunnerVerdict.vo theories/RunnerSteps.vo theories/RunnerQuiet.vo theories/RunnerEq.vo gen/StatusTable.vo
+props/C01.vio: props/C01.v theories/Base.vio theories/Status.vio theories/Rollup.vio theories/Runner.vio theories/RunnerVerdict.vio theories/RunnerSteps.vio theories/RunnerQuiet.vio theories/RunnerEq.vio gen/StatusTable.vio
+props/C01.vos props/C01.vok props/C01.required_vos: props/C01.v theories/Base.vos theories/Status.vos theories/Rollup.vos theories/Runner.vos theories/RunnerVerdict.vos theories/RunnerSteps.vos theories/RunnerQuiet.vos theories/RunnerEq.vos gen/StatusTable.vos
+props/C02.vo props/C02.glob props/C02.v.beautified props/C02.required_vo: props/C02.v theories/Base.vo theories/Status.vo theories/Rollup.vo theories/Runner.vo theories/RunnerSteps.vo theories/RunnerQuiet.vo theories/RunnerEq.vo gen/StatusTable.vo
+props/C02.vio: props/C02.v theories/Base.vio theories/Status.vio theories/Rollup.vio theories/Runner.vio theories/RunnerSteps.vio theories/RunnerQuiet.vio theories/RunnerEq.vio gen/StatusTable.vio
+props/C02.vos props/C02.vok props/C02.required_vos: props/C02.v theories/Base.vos theories/Status.vos theories/Rollup.vos theories/Runner.vos theories/RunnerSteps.vos theories/RunnerQuiet.vos theories/RunnerEq.vos gen/StatusTable.vos
 props/C03.vo props/C03.glob props/C03.v.beautified props/C03.required_vo: props/C03.v theories/Base.vo theories/Status.vo theories/Rollup.vo theories/RollupProofs.vo gen/StatusTable.vo
 props/C03.vio: props/C03.v theories/Base.vio theories/Status.vio theories/Rollup.vio theories/RollupProofs.vio gen/StatusTable.vio
 props/C03.vos props/C03.vok props/C03.required_vos: props/C03.v theories/Base.vos theories/Status.vos theories/Rollup.vos theories/RollupProofs.vos gen/StatusTable.vos
